@@ -321,7 +321,33 @@ func (e *Exec) buildCex(label string, negated *Term) map[string]any {
 			add(u.Args[2])
 		}
 	}
-	r, vals := e.sol.CheckModel(negated, want)
+	// model hygiene: the three address codecs have distinct human-readable prefixes, so the counterexample asked
+	// for does not make one string valid under two of them (the solver is otherwise free to, where the path says
+	// nothing about the other codec, and such a string cannot be realised natively)
+	hygiene := []*Term{}
+	kinds := []string{"acc", "val", "cons"}
+	for _, s := range e.syms {
+		if s.S != StrSort {
+			continue
+		}
+		for i, k := range kinds {
+			for _, k2 := range kinds[i+1:] {
+				if declaredFun["addr.valid."+k] && declaredFun["addr.valid."+k2] {
+					hygiene = append(hygiene, Not(And(App("addr.valid."+k, BoolSort, s), App("addr.valid."+k2, BoolSort, s))))
+				}
+			}
+		}
+	}
+	r, vals := "", map[string]string(nil)
+	if len(hygiene) > 0 {
+		if negated != nil {
+			hygiene = append(hygiene, negated)
+		}
+		r, vals = e.sol.CheckModel(And(hygiene...), want)
+	}
+	if r != "sat" {
+		r, vals = e.sol.CheckModel(negated, want)
+	}
 	if r != "sat" {
 		return nil
 	}
